@@ -7,6 +7,24 @@ from .. import algos as A
 from . import partcommon as PC
 
 
+_CROSS = {}
+
+
+def crossings(rhomax, lo=100, hi=1300):
+    """budgets at which N = ceil(0.5 Dmax ln((n/2)/ln(n/2))) steps up: the boundary values of the schedule"""
+    key = round(rhomax, 6)
+    if key not in _CROSS:
+        out = []
+        prev = K.gpo_consts(lo - 1, rhomax)["N"]
+        for n in range(lo, hi):
+            N = K.gpo_consts(n, rhomax)["N"]
+            if N != prev:
+                out += [n - 1, n, n + 1]
+            prev = N
+        _CROSS[key] = [n for n in out if n >= lo]
+    return _CROSS[key]
+
+
 def gpo_cfgs(tier, base_id, algos=("GPO", "PCT", "VPCT"), patterns=("g", "neg", "tied", "peak")):
     rnd = random.Random(C.seed() + 31)
     cfgs = []
@@ -15,8 +33,12 @@ def gpo_cfgs(tier, base_id, algos=("GPO", "PCT", "VPCT"), patterns=("g", "neg", 
     for algo in algos:
         for rep in range(reps):
             while True:
+                rhomax = rnd.choice([0.9, 0.9, 0.7, rnd.uniform(0.2, 0.96), rnd.uniform(0.6, 0.95)])
                 n = rnd.choice([100, 128, 200, 300, 400]) if tier == "quick" else rnd.randint(100, 1200)
-                rhomax = rnd.choice([0.9, rnd.uniform(0.2, 0.96), rnd.uniform(0.6, 0.95)])
+                if rep % 2 == 1 and rhomax in (0.9, 0.7):      # every other run sits on a step of N (odd and even budgets)
+                    cr = [x for x in crossings(rhomax) if x <= (900 if tier == "quick" else 1300)]
+                    if cr:
+                        n = rnd.choice(cr)
                 c = K.gpo_consts(n, rhomax)
                 if not c["amb"] and c["N"] >= 1 and c["half"] >= 1 and c["N"] <= 400:
                     break
